@@ -7,6 +7,7 @@ use crate::rng::{mix, Rng};
 use nexrad_decode::messages::decode_message_header;
 use nexrad_decode::messages::MessageType;
 use serde_json::json;
+#[cfg(feature = "dec-uom")]
 use uom::si::information::byte;
 
 /// ICD 2620002W Table III: the 29 defined type codes with the name the crate is expected to give
@@ -162,6 +163,8 @@ fn check_sizes(ctx: &mut Ctx, size: u16, count: u16, number: u16, pair_class: u6
         if segmented_expected { Some(number) } else { None }
     );
     acc!("message_size_bytes", d.message_size_bytes(), bytes_expected);
+    #[cfg(feature = "dec-uom")]
+    {
     acc!(
         "message_size",
         d.message_size().get::<byte>(),
@@ -188,6 +191,7 @@ fn check_sizes(ctx: &mut Ctx, size: u16, count: u16, number: u16, pair_class: u6
                 replay.clone(),
             );
         }
+    }
     }
 }
 
